@@ -308,12 +308,89 @@ class CFG:
 KILL = object()  # returned by an edge function to drop the edge
 
 
+def _const_kinds(v):
+    """What is known about a value expression made of constants: subset of {'T','F','N','NN'} (truthy / falsy / is None /
+    is not None) that holds for every value it can take; None if the expression is not made of constants only."""
+    if isinstance(v, ast.Constant):
+        if v.value is None:
+            return {"F", "N"}
+        try:
+            return {"T" if bool(v.value) else "F", "NN"}
+        except Exception:  # pragma: no cover
+            return {"NN"}
+    if isinstance(v, ast.IfExp):
+        a, b = _const_kinds(v.body), _const_kinds(v.orelse)
+        return None if a is None or b is None else a & b
+    if isinstance(v, ast.JoinedStr):
+        return {"NN"}
+    return None
+
+
+def _trackable_flags(fn) -> set[str]:
+    """Local names whose truth value / None-ness can be followed along a path.  Either every read is a test (`if x`,
+    `x is None`, under not / and / or, in if / while / conditional expression / assert / comprehension filter) or a return,
+    or every value ever assigned is an immutable constant (None, True, a string literal, a conditional expression over
+    those), in which case the name may be read anywhere.  Every write is a plain `name = value`; no nested function
+    mentions the name; it is not a parameter.  Such a name cannot change between two tests other than by an assignment,
+    so a test contradicting what the path already established is infeasible."""
+    truth = set()
+
+    def mark(e):
+        if isinstance(e, ast.Name):
+            truth.add(id(e))
+        elif isinstance(e, ast.UnaryOp) and isinstance(e.op, ast.Not):
+            mark(e.operand)
+        elif isinstance(e, ast.BoolOp):
+            for v in e.values:
+                mark(v)
+        elif isinstance(e, ast.Compare) and len(e.ops) == 1 and isinstance(e.ops[0], (ast.Is, ast.IsNot)) and isinstance(e.left, ast.Name) and isinstance(e.comparators[0], ast.Constant) and e.comparators[0].value is None:
+            truth.add(id(e.left))
+    stores: dict[str, list] = {}
+    bad = set()
+    for n in ast.walk(fn):
+        if isinstance(n, (ast.If, ast.While, ast.IfExp, ast.Assert)):
+            mark(n.test)
+        elif isinstance(n, ast.comprehension):
+            for c in n.ifs:
+                mark(c)
+        elif isinstance(n, ast.Return) and isinstance(n.value, ast.Name):
+            truth.add(id(n.value))
+        elif isinstance(n, ast.Assign) and len(n.targets) == 1 and isinstance(n.targets[0], ast.Name):
+            stores.setdefault(n.targets[0].id, []).append(n.value)
+            truth.add(id(n.targets[0]))
+            if isinstance(n.value, ast.BoolOp):
+                mark(n.value)  # flag = flag or <expr>
+        elif isinstance(n, (ast.FunctionDef, ast.AsyncFunctionDef, ast.Lambda)) and n is not fn:
+            bad |= {x.id for x in ast.walk(n) if isinstance(x, ast.Name)}
+        elif isinstance(n, (ast.Global, ast.Nonlocal)):
+            bad |= set(n.names)
+    args = getattr(fn, "args", None)
+    if args is not None:
+        bad |= {a.arg for a in args.args + args.kwonlyargs + args.posonlyargs}
+        if args.vararg:
+            bad.add(args.vararg.arg)
+        if args.kwarg:
+            bad.add(args.kwarg.arg)
+    const_flags = {k for k, vs in stores.items() if all(_const_kinds(v) is not None for v in vs)}
+    for n in ast.walk(fn):
+        if isinstance(n, ast.Name) and id(n) not in truth:
+            if isinstance(n.ctx, ast.Load) and n.id in const_flags:
+                continue
+            bad.add(n.id)
+    return {k for k in stores if k not in bad}
+
+
+_OPPOSITE = {"T": "F", "F": "T", "N": "NN", "NN": "N"}
+_IMPLIED = {"T": {"T", "NN"}, "F": {"F"}, "N": {"N", "F"}, "NN": {"NN"}}
+
+
 def typestate(
     cfg: CFG,
     init: Iterable,
     node_fn: Callable[[Node, object], Iterable],
     edge_fn: Callable[[Node, object, object], object] | None = None,
     max_states: int = 200000,
+    track_flags: bool = True,
 ):
     """Generic forward propagation of finite states.
 
@@ -321,33 +398,91 @@ def typestate(
     through closures); edge_fn(node, label, state) -> state (or KILL to drop the edge; None is an ordinary state).
     Returns (states_at_node_entry: dict[node_id, set], exit_states: set, trace_parent) where
     trace_parent maps (node_id, state) -> predecessor (node_id, state) for witness paths.
+
+    With track_flags (default) every state is paired internally with what the path knows about the truth value of the
+    function's trackable boolean flags (see _trackable_flags): `flag = True / False` and the outcome of `if flag:` are
+    remembered until the next assignment, and an edge that contradicts them is dropped as infeasible.  The caller's
+    node_fn / edge_fn and the returned tables only ever see the caller's own states.
     """
+    flags = _trackable_flags(cfg.fn) if track_flags else set()
+    at_w: dict[int, set] = {n.id: set() for n in cfg.nodes}
     at: dict[int, set] = {n.id: set() for n in cfg.nodes}
     parent: dict[tuple, tuple | None] = {}
     q = deque()
     for s in init:
+        w = (s, frozenset())
+        at_w[cfg.entry.id].add(w)
         at[cfg.entry.id].add(s)
         parent[(cfg.entry.id, s)] = None
-        q.append((cfg.entry, s))
+        q.append((cfg.entry, w))
     exits = set()
     count = 0
+
+    def after_node(n, facts):
+        if not flags or n.ast is None or n.kind == "cond":
+            return facts
+        if n.kind == "forhead" and isinstance(n.ast, ast.For):
+            stored = {x.id for x in ast.walk(n.ast.target) if isinstance(x, ast.Name)} & flags
+        elif n.kind == "def":
+            stored = set()
+        else:
+            stored = {x.id for x in ast.walk(n.ast) if isinstance(x, ast.Name) and isinstance(x.ctx, ast.Store) and x.id in flags}
+        if stored:
+            facts = frozenset(f for f in facts if f[0] not in stored)
+        if n.kind == "stmt" and isinstance(n.ast, ast.Assign) and len(n.ast.targets) == 1 and isinstance(n.ast.targets[0], ast.Name) and n.ast.targets[0].id in flags:
+            kinds = _const_kinds(n.ast.value)
+            if kinds:
+                facts = frozenset(facts | {(n.ast.targets[0].id, k) for k in kinds})
+        return facts
+
+    def asserted(n, lab):
+        """(name, kind) established by leaving cond node n through `lab`, or None"""
+        e = n.ast
+        if isinstance(e, ast.Name) and e.id in flags:
+            return e.id, ("T" if lab else "F")
+        if isinstance(e, ast.Compare) and len(e.ops) == 1 and isinstance(e.ops[0], (ast.Is, ast.IsNot)) and isinstance(e.left, ast.Name) and e.left.id in flags and isinstance(e.comparators[0], ast.Constant) and e.comparators[0].value is None:
+            is_none = lab if isinstance(e.ops[0], ast.Is) else (not lab)
+            return e.left.id, ("N" if is_none else "NN")
+        return None
+
+    def over_edge(n, lab, facts):
+        if flags and n.kind == "cond" and lab in (True, False) and n.ast is not None:
+            a = asserted(n, lab)
+            if a is not None:
+                name, kind = a
+                have = {k for (nm, k) in facts if nm == name}
+                new = _IMPLIED[kind]
+                if any(_OPPOSITE[k] in have for k in new):
+                    return KILL
+                if not new <= have:
+                    return frozenset(facts | {(name, k) for k in new})
+        return facts
+
     while q:
-        n, s = q.popleft()
+        n, w = q.popleft()
+        s, facts = w
         count += 1
         if count > max_states:
             raise RuntimeError("typestate: state explosion")
         if n is cfg.exit:
             exits.add(s)
             continue
+        facts2 = after_node(n, facts)
         for s2 in node_fn(n, s):
             for m, lab in n.succ:
+                f3 = over_edge(n, lab, facts2)
+                if f3 is KILL:
+                    continue
                 s3 = edge_fn(n, lab, s2) if edge_fn else s2
                 if s3 is KILL:
                     continue
-                if s3 not in at[m.id]:
-                    at[m.id].add(s3)
-                    parent[(m.id, s3)] = (n.id, s)
-                    q.append((m, s3))
+                w3 = (s3, f3)
+                if w3 not in at_w[m.id]:
+                    at_w[m.id].add(w3)
+                    if s3 not in at[m.id]:
+                        at[m.id].add(s3)
+                        parent[(m.id, s3)] = (n.id, s)
+                    q.append((m, w3))
     return at, exits, parent
 
 
